@@ -23,7 +23,11 @@ NOT_DECIDED = ("injectivity of std::any::type_name outside the checked family (i
 def run(ck, models, tier, ws):
     ck.decided, ck.not_decided = DECIDED, NOT_DECIDED
     ck.trusted += ["rustc type checking and MIR", "std::any::type_name is injective on structurally different fn-pointer types", "std models"]
-    tm = models[0]
+    for tm in models:
+        run_one(ck, tm, tier, ws)
+
+
+def run_one(ck, tm, tier, ws):
     hm = mac.get(ws, tm.facts, tier)
     # ---------------- R9.1 library gates
     n_checked = 0
